@@ -354,10 +354,13 @@ def _get_document(*, source: Union[str, Path], timeout: int) -> Union[dict[str, 
             else:  # pragma: no cover
                 content_type = mimetypes.guess_type(source, strict=True)[0]
 
-        except (httpx.HTTPError, httpcore.NetworkError):
+        except (httpx.HTTPError, httpx.InvalidURL, httpcore.NetworkError):
             return GeneratorError(header="Could not get OpenAPI document from provided URL")
     else:
-        yaml_bytes = source.read_bytes()
+        try:
+            yaml_bytes = source.read_bytes()
+        except OSError as err:
+            return GeneratorError(header="Could not read OpenAPI document from provided path", detail=str(err))
         content_type = mimetypes.guess_type(source.absolute().as_uri(), strict=True)[0]
 
     return _load_yaml_or_json(yaml_bytes, content_type)
